@@ -2,6 +2,26 @@
 """Writes /verif/seeded/MATRIX.md from the meta.json files of the seeded changes."""
 import json, glob, os
 
+# what each change that was first missed made me strengthen (the change is reported since then)
+NOTES = {
+ 'C04_m1': 'first missed: v4 cut obligations were classified as float goals and never discharged',
+ 'C04_m2': 'first missed: same hole as C04_m1',
+ 'C12_m1': 'first reported by the thorough tier only; quick now runs the inner stage on the classes with CR=IR=AR',
+ 'C12_m2': 'first missed in quick (distances all 0); quick now covers the corners of every distance box, with a concrete replayed pair',
+ 'C17_m2': 'first missed: pool put-back on every return path was not an obligation',
+ 'C01_m3': 'first ended as a tool error (stale proof hint); stale hints are now dropped and the obligations attempted without them',
+ 'C09_m4': 'first missed by C09: scoring-function safety obligations were left to C04/C11; C09 now discharges them',
+ 'C11_m3': 'first missed: stages fixed non-enumerated bits at 0; instances now leave them open',
+ 'C11_m4': 'C11 assumes wf; reported through Set wf_preserved, which C11 now discharges itself',
+ 'C11_m5': 'first missed in quick: the inner environmental stage was thorough-only; quick now runs a stated subset',
+ 'C13_m3': 'first missed by C14: package state handed to sync/atomic is now a frame obligation',
+ 'C14_m4': 'first missed: a second Put of the pool item was not an obligation',
+ 'C14_m6': 'first missed by C14: range over a map (nondeterministic order) is now a frame obligation',
+ 'C18_m3': 'first missed by C18: callee clauses assumed at call sites are now discharged in every check that uses them',
+ 'C18_m4': 'first missed by C18: same (splitCouple contract)',
+ 'C03_m2': 'lifting through the relational obligations, which C03 now discharges itself',
+}
+
 rows = []
 for d in sorted(glob.glob('/verif/seeded/*/')):
     mp = os.path.join(d, 'meta.json')
@@ -20,13 +40,13 @@ for d in sorted(glob.glob('/verif/seeded/*/')):
     what = (m.get('what_it_breaks') or '').replace('\n', ' ').replace('|', '/')
     if len(what) > 230:
         what = what[:227] + '...'
-    rows.append((name, ', '.join(m.get('files_changed', [])), what, 'yes' if ok else 'NO', ' '.join(det), m.get('detection_note', '')))
+    rows.append((name, ', '.join(m.get('files_changed', [])), what, 'yes' if ok else 'NO', ' '.join(det), NOTES.get(name, m.get('detection_note', ''))))
 
 with open('/verif/seeded/MATRIX.md', 'w') as f:
     f.write('# Seeded changes and which checks report them\n\n')
     f.write('Every change compiles, passes the pinned test suite, and breaks the property named by its directory\n'
             '(`<property>_<mutant>`); `confirmed` = I re-checked build / suite / demo-fails / demo-passes-on-pristine on a scratch copy.\n'
-            'm1, m2: first round of sub-agents; m3, m4: second round (asked for a different kind of change).\n'
+            'm1, m2: first round of sub-agents; m3, m4 and m5, m6: second and third rounds (each told what the earlier rounds had produced and asked for a different kind of change).\n'
             '`Cxx:VIOLATION` = the quick check of Cxx exits 1 with a VIOLATION line on the changed tree; `quiet` = exits 0.\n\n')
     f.write('| change | files | what it breaks | confirmed | checks run (quick tier) | note |\n|---|---|---|---|---|---|\n')
     for r in rows:
